@@ -52,6 +52,8 @@ pub struct Program {
     pub clocks: bool,
     /// `Config::max_time` in milliseconds (config time=MS)
     pub time_ms: Option<u64>,
+    /// `config stop=N`: the scheduler answers "no task" at decision N of every execution
+    pub stop_at: Option<usize>,
     pub objs: Vec<ObjDecl>,
     pub tasks: Vec<TaskDecl>,
     pub run: String,
@@ -82,6 +84,7 @@ pub fn parse_batch(text: &str) -> Vec<Program> {
                 steps: Steps::None,
                 clocks: true,
                 time_ms: None,
+                stop_at: None,
                 objs: vec![],
                 tasks: vec![],
                 run: "rr:1".into(),
@@ -126,6 +129,8 @@ pub fn parse_batch(text: &str) -> Vec<Program> {
                         };
                     } else if let Some(v) = kv.strip_prefix("time=") {
                         p.time_ms = v.parse().ok();
+                    } else if let Some(v) = kv.strip_prefix("stop=") {
+                        p.stop_at = v.parse().ok();
                     } else if let Some(v) = kv.strip_prefix("clocks=") {
                         p.clocks = v != "0";
                     }
